@@ -5,8 +5,10 @@
    silent steps inferred by TLC (depth-first queue; acceptance = the whole trace was consumed on some path).
    Grain-of-atomicity resolutions are named actions (TryDMissLate, TryRMissLate, stutters).                          *)
 EXTENDS Engine, Json
-CONSTANT TraceFile
+CONSTANT TraceFile, CustomFile
 Tr == JsonDeserialize(TraceFile)
+\* the workflow of a generated case (Family = "custom"): cfg line  Custom <- CustomDef
+CustomDef == JsonDeserialize(CustomFile)
 VARIABLES l,          \* next event
           fillAfter   \* <<step, stage>> whose slot was filled after the step goroutine's last own event
 tvars == <<vars, l, fillAfter>>
